@@ -44,7 +44,12 @@ func (c *deferInfoCollector) EnterSelectionSet(ref int) {
 		if !ok {
 			continue
 		}
-		if _, seen := c.descriptors[id]; seen {
+		if seen, ok := c.descriptors[id]; ok {
+			// the fragment's fields can end up mounted at several places (a composite field of
+			// the fragment merged with a copy outside of it): the announced path must be a
+			// prefix of all of them, subPath carries the rest
+			seen.Path = commonPathPrefix(seen.Path, c.deferPath())
+			c.descriptors[id] = seen
 			continue
 		}
 		c.descriptors[id] = resolve.DeferDescriptor{
@@ -121,4 +126,12 @@ func (c *deferInfoCollector) outermostListFieldIndex() int {
 		parentType = next
 	}
 	return -1
+}
+
+func commonPathPrefix(a, b []string) []string {
+	n := 0
+	for n < len(a) && n < len(b) && a[n] == b[n] {
+		n++
+	}
+	return a[:n]
 }
